@@ -23,7 +23,7 @@ def plans(ctx):
                 ("k2eps2", [L], 1, 10), ("k2e5", [L], 1, 10)]
     else:
         menu = [("k2a", [1, 2, 3, L], 1, 10), ("k2m1", [1, 2, L], 1, 10), ("k2vec", [2, L], 1, 10),
-                ("k2seed", [1, L], 1, 10)]
+                ("k2seed", [1, L], 1, 10), ("k3a", [L], 0, 10)]
     out = []
     for (name, limits, bound, cap) in menu:
         d = ml.get_driver(name, ctx.seed)
